@@ -42,6 +42,11 @@ pub fn partners(c: u32) -> Vec<u32> {
             v.extend_from_slice(cls);
         }
     }
+    // ASCII characters differing only in bit 5 (the ASCII "case bit"): @ and `, [ and {, \ and |,
+    // ] and }, ^ and ~, _ and DEL are not case partners, but bit tricks may treat them so.
+    if (0x40..=0x7F).contains(&c) {
+        v.push(c ^ 0x20);
+    }
     v.sort_unstable();
     v.dedup();
     v
